@@ -22,10 +22,12 @@ FINDING_ID = "K-C18-subsecond-record-timestamps"
 RULE = (
     "batches are produced by the reference encoder kv.refbatch.encode_batch from Hypothesis-generated wire-level "
     "batches (0-5 records, int64 base offset with int32 deltas, record timestamps anywhere in [epoch, 9999-12-31], "
-    "null/empty/non-empty keys, values and headers, all header fields over their full ranges), plus the four "
-    "real-broker batches of tests/records/fixtures.py; each batch (<= ~300 bytes) is read (a) intact: header fields and "
+    "null/empty/non-empty keys, values and headers, all header fields over their full ranges; in 1 record of 13 a key or "
+    "value of 63..8192 bytes or 63-65 headers, so that length and count varints need 2-3 bytes), plus the four "
+    "real-broker batches of tests/records/fixtures.py; each batch is read (a) intact: header fields and "
     "records must equal the encoded ones and write_batch(read_batch(b)) == b; (b) with EVERY single-bit flip from byte "
-    "17 (CRC field) to the end, (c) truncated at EVERY length 0..len-1, (d) with EVERY wrong magic value: each must "
+    "17 (CRC field) to the end, (c) truncated at EVERY length 0..len-1 (batches above 600 bytes: every position in the first 96 "
+    "and last 32 bytes and every 7th in between), (d) with EVERY wrong magic value: each must "
     "raise and never return a batch (read calls are counted, not timed). evaluations = reads executed. Non-trivial = "
     "corruption case; distinct by (batch hash, fault). The main search uses whole-second record timestamps; "
     "sub-second ones are the region of an open known finding and are probed separately."
@@ -54,12 +56,22 @@ def wire_batches(draw, subsecond: bool):
             ts -= ts % 1000
         tss.append(ts)
         nh = draw(st.sampled_from([0, 0, 1, 2]))
+        key, value = draw(_blob()), draw(_blob(24))
+        big = draw(st.integers(0, 39))  # 1 case in 10: a part whose varint length / count needs two or three bytes
+        if big == 0:
+            nh = draw(st.sampled_from([63, 64, 65]))
+        elif big in (1, 2):
+            n_big = draw(st.sampled_from([63, 64, 65, 200, 8191, 8192]))
+            unit = draw(st.binary(min_size=1, max_size=3))
+            blob = (unit * (n_big // len(unit) + 1))[:n_big]
+            key, value = (blob, value) if big == 1 else (key, blob)
         recs.append(WireRecord(
             attributes=draw(int_strategy(-128, 127)),
             timestamp_delta=ts - base_ts,
             offset_delta=draw(st.one_of(st.sampled_from([0, 1, -1, 2**31 - 1, -(2**31), 63, 64]), st.integers(-(2**31), 2**31 - 1))),
-            key=draw(_blob()), value=draw(_blob(24)),
-            headers=tuple(WireHeader(draw(_blob(6)), draw(_blob(6))) for _ in range(nh)),
+            key=key, value=value,
+            headers=(tuple(WireHeader(draw(_blob(6)), draw(_blob(6))) for _ in range(nh)) if nh < 60 else
+                     tuple(WireHeader(bytes([65 + j % 26]) * (j % 3), None if j % 5 == 0 else bytes([j])) for j in range(nh))),
         ))
     return WireBatch(
         base_offset=base_offset,
@@ -147,12 +159,21 @@ def check_identity(wb: WireBatch, data: bytes) -> tuple[list, bool]:
 
 
 def faults(data: bytes):
-    """Yield (label, corrupted bytes) for every enumerated fault."""
+    """Yield (label, corrupted bytes) for every enumerated fault.  Batches above 600 bytes (1 generated case in 10) are
+    enumerated with a stride in their middle part: every position in the first 96 and last 32 bytes, every 7th between."""
+    dense = len(data) <= 600
+
+    def picked(pos: int) -> bool:
+        return dense or pos < 96 or pos >= len(data) - 32 or pos % 7 == 0
+
     for pos in range(17, len(data)):
+        if not picked(pos):
+            continue
         for bit in range(8):
             yield (f"bitflip@{pos}.{bit}", data[:pos] + bytes([data[pos] ^ (1 << bit)]) + data[pos + 1:])
     for n in range(len(data)):
-        yield (f"truncate@{n}", data[:n])
+        if picked(n):
+            yield (f"truncate@{n}", data[:n])
     for m in range(256):
         if m != 2:
             yield (f"magic={m}", data[:16] + bytes([m]) + data[17:])
@@ -235,8 +256,8 @@ def run_batch(rep, c, wb, data, probe: bool, with_faults: bool):
 
 def run(ctx: Ctx) -> Report:
     total = Report(prop=ID, level="fault_enumeration", rule=RULE)
-    n_main = 128 if ctx.quick else 6000
-    n_probe = 32 if ctx.quick else 640
+    n_main = 1600 if ctx.quick else 20000
+    n_probe = 160 if ctx.quick else 1600
     shards = 16
     tasks = [(ctx.subseed("main", i), n_main // shards, False) for i in range(shards)]
     tasks += [(ctx.subseed("probe", i), n_probe // shards, True) for i in range(shards)]
